@@ -22,10 +22,19 @@ func main() {
 	switch os.Args[1] {
 	case "check":
 		os.Exit(check(os.Args[2:]))
+	case "thorough":
+		os.Exit(thorough(os.Args[2:]))
 	case "rules":
 		for _, r := range rules.All() {
 			fmt.Printf("%-24s %v  %s\n", r.Name, r.Props, r.Doc)
 		}
+	case "events":
+		prog, err := core.Load(core.LoadOptions{})
+		if err != nil {
+			fmt.Println(err)
+			os.Exit(2)
+		}
+		rules.DumpEvents(&rules.Ctx{P: prog, S: core.NewSink()})
 	default:
 		fmt.Println("unknown command", os.Args[1])
 		os.Exit(2)
